@@ -561,9 +561,9 @@ func (s *Service) ApplyPlanLive(ctx context.Context, desired config.Pipeline, ha
 	// This is the payoff of the LiveSwappable classification — a processor tweak
 	// takes effect with no availability blip, no position replay, no record loss.
 	// applyInPlace returns swappedAll=false (err=nil) when a processor cannot be
-	// swapped live (e.g. it is parallelized): the config is already committed, so
-	// we fall through to the restart path below, which rebuilds every node from
-	// it, applying the whole diff uniformly.
+	// swapped live (e.g. it is parallelized): it has undone its own changes, so
+	// we fall through to the restart path below, which applies the whole diff
+	// uniformly once the pipeline is stopped.
 	if fresh.LiveEligible() {
 		oldConfig, err := s.Export(ctx, desired.ID)
 		if err != nil {
@@ -577,8 +577,7 @@ func (s *Service) ApplyPlanLive(ctx context.Context, desired config.Pipeline, ha
 			fresh.AppliedMode = ApplyModeInPlace
 			return fresh, nil
 		}
-		// Fall through to the restart path: the config is committed, so
-		// StopAndWait -> (idempotent) import -> Start rebuilds from it. The
+		// Fall through to the restart path: StopAndWait -> import -> Start. The
 		// reported mode is restart, not in_place — this is exactly the fallback
 		// AppliedMode exists to report honestly.
 	}
@@ -627,8 +626,8 @@ func (s *Service) ApplyPlanLive(ctx context.Context, desired config.Pipeline, ha
 //
 // It returns swappedAll=true when every change was applied in place. It returns
 // (false, nil) when a processor cannot be swapped live (e.g. it is parallelized):
-// the config is already committed, so the caller falls back to a restart that
-// rebuilds every node from it. On a genuine swap failure (the new processor fails
+// everything applied so far is rolled back and the caller falls back to a restart,
+// which applies the diff once the pipeline is stopped. On a genuine swap failure (the new processor fails
 // to open), it rolls back — restoring the old config and re-swapping any
 // already-swapped processors back — so the store and the live pipeline agree on
 // the old config and the pipeline keeps running unchanged, and returns the error.
@@ -661,9 +660,12 @@ func (s *Service) applyInPlace(ctx context.Context, desired, oldConfig config.Pi
 		err := s.lifecycleService.ReconfigureProcessor(ctx, desired.ID, c.ID)
 		switch {
 		case cerrors.Is(err, lifecycle.ErrProcessorNotLiveReconfigurable):
-			// Not swappable live. Signal a restart fallback; no rollback needed —
-			// the restart tears down and rebuilds every node from the committed
-			// config anyway.
+			// Not swappable live. Signal a restart fallback, but first undo what
+			// was applied so far: the fallback can still fail before anything is
+			// stopped (StopAndWait), and then the pipeline keeps running its old
+			// processors — the store must not be left on the new config. The
+			// restart path imports desired again once the pipeline is stopped.
+			s.rollbackInPlace(ctx, desired.ID, oldConfig, swapped)
 			return false, nil
 		case err != nil:
 			// The new processor failed to open; the old one is still running
